@@ -125,6 +125,7 @@ func (f *fsm) run() {
 		close(f.doneCh)
 	}()
 
+	verifPoint("run.start")
 	var t stateTransition
 	if f.conn != nil {
 		// if we start up with a non-nil conn we should enter into the active
